@@ -167,6 +167,11 @@ def saturation_mutagenesis(model, X, args=None, start=0, end=-1, batch_size=32,
 		The outputs from the model for each of the perturbed sequences.
 	"""
 
+	# A negative end counts from the end of the sequence, with the default of
+	# -1 meaning the entire sequence.
+	if end < 0:
+		end = X.shape[-1] + 1 + end
+
 	y0 = predict(model, X, args=args, device=device)
 	
 	y_hat = []
